@@ -438,6 +438,11 @@ def gen_cycle_history(rnd, sid):
                     se = engine.Edge(952); se.phony = True; se.outs = ['stamp']; se.exp = ['xout']
                     pe.oo = ['stamp']; ins0 = [xe, se, pe]; kind = 'dyndep-built-behind-phony'
                 g.edges[0:0] = ins0; g.ddtext[dd] = text
+    # a self-reference written in the legacy position is tolerated only while the statement keeps the legacy form
+    for e in g.edges:
+        if e.selfref and not (e.phony and len(e.outs) == 1 and e.n_imp_out == 0 and not e.imp):
+            getattr(e, e.selfref).append(e.out0); e.selfref = None
+            if kind in ('none', 'validation-back', 'self-legacy-form'): kind = 'self-cycle'
     g.defaults = []
     h = Hist(sid, g); h.cycle_kind = kind
     outs = [o for e in g.edges for o in e.outs]
